@@ -48,6 +48,33 @@ def _isnan_mask_of(fi, name: str, param: str) -> bool:
     return has_isnan and reduces and "~" not in txt and "not " not in txt
 
 
+def _missing_mask_expr(fi, e: ast.AST, at: ast.AST, param: str, negated: bool = False) -> bool:
+    """`e`, as evaluated at `at`, is built from any(isnan(<param>), axis=-1) - the per-keypoint "missing" mask - by
+    shape-only operations (negated=False), or from its complement ~mask / logical_not(mask) / all(~isnan(param)) (negated=True)."""
+    x = astq.expand_at(fi.node, e, at)
+    if x is None:
+        return False
+    isn = [c for c in ast.walk(x) if isinstance(c, ast.Call) and norm(c.func).endswith("isnan") and c.args and norm(c.args[0]) == param]
+    anyc = [c for c in ast.walk(x) if isinstance(c, ast.Call) and norm(c.func).split(".")[-1] == "any" and any(i in list(ast.walk(c)) for i in isn)]
+    allc = [c for c in ast.walk(x) if isinstance(c, ast.Call) and norm(c.func).split(".")[-1] == "all"]
+    negs = [n for n in ast.walk(x) if (isinstance(n, ast.UnaryOp) and isinstance(n.op, (ast.Invert, ast.Not))) or (isinstance(n, ast.Call) and norm(n.func).split(".")[-1] == "logical_not")
+            or (isinstance(n, ast.Compare) and len(n.ops) == 1 and isinstance(n.ops[0], ast.Eq) and astq.const_value(n.comparators[0]) is False)]
+    if not isn:
+        return False
+    if not negated:
+        return bool(anyc) and not negs and not allc
+    if len(negs) != 1:
+        return False
+    inner = negs[0].operand if isinstance(negs[0], ast.UnaryOp) else (negs[0].left if isinstance(negs[0], ast.Compare) else (negs[0].args[0] if negs[0].args else None))
+    if inner is None:
+        return False
+    if anyc and not allc:     # ~any(isnan(p))
+        return any(inner is c for c in anyc)
+    if allc and not anyc:     # all(~isnan(p))
+        return any(inner is i for i in isn) and any(negs[0] in list(ast.walk(c)) for c in allc)
+    return False
+
+
 def check_dep(prog: Program, res: Result) -> None:
     R = "C15-dep"
     fi = prog.func(f"{EV}:compute_oks")
@@ -68,7 +95,7 @@ def check_dep(prog: Program, res: Result) -> None:
     for s in pre:
         is_inf = norm(s.value) in ("np.inf", "numpy.inf", "float('inf')", "math.inf")
         idx_names = astq.names_in(s.targets[0].slice)
-        mask_ok = any(_isnan_mask_of(fi, m, "points_pr") for m in idx_names)
+        mask_ok = any(_isnan_mask_of(fi, m, "points_pr") for m in idx_names) or _missing_mask_expr(fi, s.targets[0].slice, s, "points_pr")
         dom = cfg.must_pass([cfg.entry], cfg.stmt_nodes_containing(ex), cfg.stmt_nodes_containing(s)) is None
         unconditional = not any(isinstance(a, (ast.If, ast.For, ast.While)) for a in ancestors(s))
         if is_inf and mask_ok and dom and unconditional:
@@ -91,7 +118,7 @@ def check_dep(prog: Program, res: Result) -> None:
     for s in post:
         zero = astq.const_value(s.value) == 0
         idx_names = astq.names_in(s.targets[0].slice)
-        mask_ok = any(_isnan_mask_of(fi, m, "points_gt") for m in idx_names)
+        mask_ok = any(_isnan_mask_of(fi, m, "points_gt") for m in idx_names) or _missing_mask_expr(fi, s.targets[0].slice, s, "points_gt")
         after_exp = cfg.must_pass([cfg.entry], cfg.stmt_nodes_containing(s), cfg.stmt_nodes_containing(ex)) is None
         before_sum = sum_stmt is not None and cfg.must_pass([cfg.entry], cfg.stmt_nodes_containing(sum_stmt), cfg.stmt_nodes_containing(s)) is None
         unconditional = not any(isinstance(a, (ast.If, ast.For, ast.While)) for a in ancestors(s))
@@ -108,9 +135,11 @@ def check_dep(prog: Program, res: Result) -> None:
         is_sum = isinstance(num, ast.Call) and norm(num.func).split(".")[-1] == "sum" and ks in astq.names_in(num)
         dn = den.id if isinstance(den, ast.Name) else None
         ddef = [s for s in astq.assignments_to(fi.node, dn)] if dn else []
-        vis = len(ddef) == 1 and "~missing_gt" in norm(ddef[0].value).replace(" ", "") and "sum" in norm(ddef[0].value)
-        gmask = [m for m in astq.names_in(ddef[0].value) if _isnan_mask_of(fi, m, "points_gt")] if ddef else []
-        ok_c = is_sum and vis and bool(gmask)
+        # the divisor: sum over the nodes of the complement of the missing-ground-truth mask
+        dv = ddef[0].value if len(ddef) == 1 and isinstance(ddef[0], ast.Assign) else None
+        vis = isinstance(dv, ast.Call) and norm(dv.func).split(".")[-1] == "sum" and (dv.args or isinstance(dv.func, ast.Attribute)) \
+            and _missing_mask_expr(fi, dv.args[0] if dv.args else dv.func.value, ddef[0], "points_gt", negated=True)
+        ok_c = is_sum and bool(vis)
         res.ob(R, ok_c, fi.qualname, "OKS = sum(ks) / number of visible ground-truth keypoints",
                f"the result is `{short(sum_stmt.value, 60)}`; the divisor is not the count of visible ground-truth keypoints", f"{fi.module.relpath}:{sum_stmt.lineno}")
         res.ob(R, len(ret) == 1 and norm(ret[0].value) == norm(sum_stmt.targets[0]), fi.qualname, "that quotient is returned", "compute_oks does not return the normalised sum", fi.where)
